@@ -81,6 +81,11 @@ type Config struct {
 	ReadCap       int                        // max plaintext bytes returned per READ BINARY (0 = unlimited)
 	LeReject      int                        // READ BINARY with Ne above this is refused with 6700 (0 = never)
 	ChunkFn       func(offset, want int) int // optional: how many bytes to return (1..want)
+	BACKeyEnc     []byte                     // hostile: basic access keys used instead of the MRZ-derived ones
+	BACKeyMac     []byte                     //
+	ReuseRxBuffer bool                       // responses are returned in ONE receive buffer that the next response overwrites (as link drivers do)
+	PaceReflector bool                       // hostile: PACE without the password by echoing the terminal's agreement key and token
+	AbsentSW      map[uint16]uint16          // status word for SELECT of particular absent files (default 6A82)
 	OpenLDS       bool                       // LDS files readable without secure messaging (no access control)
 	StrictAuthLe  bool                       // refuse INTERNAL AUTHENTICATE when Ne is smaller than the signature (default: Ne ignored)
 	SelectNeedsSM bool                       // SELECT of an LDS EF without SM answers 6982 (else only READ BINARY does)
@@ -133,6 +138,8 @@ type Chip struct {
 	SMTerminations int
 	ReadBinaryLog  []ReadRec
 
+	rxBuf    []byte
+	rxUsed   int
 	inDF     bool
 	curFile  []byte
 	curFid   uint16
@@ -201,6 +208,19 @@ func (c *Chip) Transceive(_ int, _ int, _ int, _ int, _ []byte, _ int, encoded [
 	rsp = c.deviate("rapdu", rsp)
 	if n := len(c.Transcript); n > 0 {
 		c.Transcript[n-1].Rsp = append([]byte{}, rsp...)
+	}
+	if c.Cfg.ReuseRxBuffer {
+		if cap(c.rxBuf) < len(rsp) {
+			c.rxBuf = make([]byte, 0, max(2*len(rsp), 4096))
+		}
+		// scrub what the previous response occupied: stale views of it then show up as wrong data
+		prev := c.rxBuf[:c.rxUsed]
+		for i := range prev {
+			prev[i] = 0xEE
+		}
+		c.rxUsed = len(rsp)
+		c.rxBuf = append(c.rxBuf[:0], rsp...)
+		return c.rxBuf
 	}
 	return rsp
 }
@@ -347,6 +367,9 @@ func (c *Chip) selectFid(fid uint16, protected bool) uint16 {
 		lds = fid == FidCardSecurity
 	}
 	if !ok {
+		if sw, special := c.Cfg.AbsentSW[fid]; special {
+			return sw // a hostile chip refusing a file with something else than "file not found"
+		}
 		return 0x6A82
 	}
 	if lds && c.Cfg.SelectNeedsSM && !c.ldsAccessible(protected) {
